@@ -1,0 +1,15 @@
+//go:build verif
+
+package client
+
+// Contracts for the govc verifier (/verif). Comment-only.
+
+// ---- "a call made through the bundled client library ... returns what the server answered" ----
+// an error status (4xx / 5xx) answered by the server is reported to the caller as an error carrying that status,
+// whatever its body; success is reported only for non-error statuses
+//@ func (c *defaultClient) handleResponse
+//@   property C11
+//@   requires resp != nil
+//@   ensures [error-status-is-an-error] resp.StatusCode > 399 && resp.StatusCode < 600 ==> err != nil
+//@   ensures [success-only-for-non-error-status] err == nil ==> resp.StatusCode <= 399 || resp.StatusCode >= 600
+//@   modifies *
